@@ -11,7 +11,8 @@ STATE = {'fee': 20000, 'push': 'ok', 'randint': [], 'dirichlet': None, 'parts': 
 
 ERRS = [('No unspent transaction outputs', 'no-utxos'), ('Not enough unspent', 'not-enough'), ('Total amount of outputs is greater', 'outputs-greater'),
         ('Not enough funds to create multiple change outputs', 'multi-change'), ('Sum of inputs values is not equal', 'not-balanced'),
-        ('lower then minimal', 'fee-low'), ('higher then maximum', 'fee-high')]
+        ('lower then minimal', 'fee-low'), ('higher then maximum', 'fee-high'),
+        ('same output more than once', 'duplicate-input')]
 
 
 def install(ctx):
@@ -176,6 +177,12 @@ class Case:
             conf = rng.choice([0, 1, 1, 3, 6, 6, 6])
             txid = '%064x' % rng.getrandbits(250)
             n = rng.randrange(3)
+            if self.utxos and rng.random() < 0.35:
+                # another output of a transaction the wallet already knows (same confirmations)
+                (ptx, pn), pv = rng.choice(sorted(self.utxos.items()))
+                free = [x for x in range(4) if (ptx, x) not in self.utxos]
+                if free:
+                    txid, n, conf = ptx, rng.choice(free), pv[1]
             w.utxo_add(key.address, val, txid, n, confirmations=conf)
             self.utxos[(txid, n)] = [val, conf, False]
         # one spent output (for the invalid explicit lists)
@@ -294,7 +301,10 @@ class Case:
             if mv == pv and py.split(' ins=')[0] == mcanon.split(' ins=')[0] and py.split(' change=')[1] == mcanon.split(' change=')[1]:
                 agree = True
                 ctx.count('selection-equal-up-to-ties')
-        if invalid and t is not None:
+        if invalid == 'duplicate' and t is not None:
+            ctx.violation('an explicit input list naming the same output twice was accepted',
+                          {'op': 'create', 'kind': self.kind, 'wseed': self.wseed, 'request': descr, 'observed': py})
+        elif invalid and t is not None:
             f40 = next((f for f in ctx.known if f['id'] == 'F40'), None)
             rep = {'op': 'create', 'kind': self.kind, 'wseed': self.wseed, 'request': descr, 'observed': py}
             if f40:
@@ -437,6 +447,39 @@ class Case:
                 continue
             ctx.violation('created transaction violates C07: ' + b, dict(rep, observed={'fee': t.fee, 'fee_per_kb': t.fee_per_kb, 'inputs': [i.value for i in t.inputs],
                                                                                          'outputs': [(a[:10], v) for a, v, _ in outs]}))
+
+    def broadcast_some(self):
+        """a spend of several outputs is really broadcast (fake network): what it consumed is gone for every later request"""
+        from bitcoinlib.wallets import WalletError
+        w, rng = self.w, self.rng
+        if w.multisig:
+            return
+        pool = sorted(self.unspent(1))
+        # prefer outputs that share their transaction id
+        by_tx = {}
+        for k in pool:
+            by_tx.setdefault(k[0], []).append(k)
+        multi = [v for v in by_tx.values() if len(v) >= 2]
+        chosen = rng.choice(multi) if multi else pool[:2]
+        if len(chosen) < 1:
+            return
+        total = sum(self.utxos[k][0] for k in chosen)
+        if total < 5000:
+            return
+        try:
+            t = w.send([(EXT['p2wpkh'][0], total - 1500)], input_arr=[(k[0], k[1]) for k in chosen], fee=1500, broadcast=True)
+        except WalletError:
+            return
+        if t is not None and t.pushed:
+            self.ctx.count('broadcast-spend:%d-inputs%s' % (len(chosen), ':same-txid' if multi else ''))
+            for i in t.inputs:
+                k = (i.prev_txid.hex(), i.output_n_int)
+                if k in self.utxos:
+                    self.utxos[k][2] = True
+            still = [(u['txid'][:8], u['output_n']) for u in w.utxos() if (u['txid'], u['output_n']) in [(i.prev_txid.hex(), i.output_n_int) for i in t.inputs]]
+            if still:
+                self.ctx.violation('outputs consumed by a broadcast transaction are still offered as unspent',
+                                   {'op': 'broadcast', 'kind': self.kind, 'wseed': self.wseed, 'still_listed': still})
 
     def insufficient_check(self):
         """funds insufficient -> no transaction"""
@@ -646,8 +689,10 @@ def run(ctx):
     for kind, wseed in todo:
         c = Case(ctx, kind, wseed)
         c.create_wallet()
-        for _ in range(nreq):
+        for j in range(nreq):
             c.one_request()
+            if j == nreq // 2:
+                c.broadcast_some()
         c.insufficient_check()
         c.sweep_and_send()
         for _ in range(4):
